@@ -635,8 +635,8 @@ namespace c09
         for (int i = 0; i < n; i++)
         {
             vf::Rng r(vf::seed(), salt, batch * 1000 + (uint64_t)i);
-            // one value in ~25 may grow to the 16-bit limits; the rest stay small
-            bool big = r.chance(1, 25);
+            // one value in 25 (thorough: in 100, there are 100 times as many) may grow to the 16-bit limits
+            bool big = r.chance(1, vf::thorough() ? 100 : 25);
             Gen g{r, big ? 420000 : (r.chance(1, 4) ? 6000 : 400)};
             T v = gen<T>(g);
             Gen g2{r, 300};
